@@ -5,11 +5,12 @@ indices of ClientDataset.shuffle_repeat_batch() is directly observable. Every
 stream is judged by an index-stream checker written from the docstring.
 """
 import itertools
+import signal
 
 import numpy as np
 
 from vmon import gen
-from vmon.core import bit_equal
+from vmon.core import Inconclusive, bit_equal
 
 PROPERTY = 'C04'
 LEVEL = 'exploration'
@@ -222,6 +223,30 @@ def run_point(ctx, cd, rng, n, b, e, s, drop, skip, seed, cut=None):
   ctx.case_done((n, b, e, s, drop, skip, seed, cut) if nontrivial else None, sample=wit, klass=klass)
 
 
+def guarded(ctx, fn, *args, **kwargs):
+  """Per-case wall-clock alarm (DESIGN 2.7): a case that does not terminate is INCONCLUSIVE, never a violation,
+  and must not take the whole shard (and the violations it already recorded) down with it."""
+  seconds = 20 if ctx.quick else 120
+  fam = 'watchdog:timeouts:' + str(ctx.cur_case).split('/')[0]
+  if ctx.counters.get(fam, 0) >= 2:  # the family keeps hanging: do not burn the shard's budget on it
+    ctx.count('watchdog:skipped-after-timeouts')
+    return
+
+  def on_alarm(signum, frame):
+    raise Inconclusive(f'case exceeded {seconds}s wall-clock (possible non-termination)')
+
+  old = signal.signal(signal.SIGALRM, on_alarm)
+  signal.setitimer(signal.ITIMER_REAL, seconds)
+  try:
+    fn(*args, **kwargs)
+  except Inconclusive as e:
+    ctx.count(fam)
+    ctx.inconclusive_because(str(e))
+  finally:
+    signal.setitimer(signal.ITIMER_REAL, 0)
+    signal.signal(signal.SIGALRM, old)
+
+
 def run(ctx):
   import fedjax  # noqa: F401
   from fedjax.core import client_datasets as cd
@@ -236,7 +261,7 @@ def run(ctx):
   for cid, (n, b, e, s, drop, skip, slot) in ctx.enum('box', box):
     rng = ctx.rng('box', n, b, e, s, drop, skip, slot)
     seed = None if slot is None else int(rng.randint(0, 2**32 - 1))
-    run_point(ctx, cd, rng, n, b, e, s, drop, skip, seed)
+    guarded(ctx, run_point, ctx, cd, rng, n, b, e, s, drop, skip, seed)
 
   for cid, rng in ctx.cases('rand', nrand):
     n = int(rng.randint(1, 201))
@@ -255,7 +280,7 @@ def run(ctx):
     drop = bool(rng.rand() < 0.5)
     skip = bool(rng.rand() < 0.3)
     seed = None if rng.rand() < 0.15 else int(rng.randint(0, 2**32 - 1))
-    run_point(ctx, cd, rng, n, b, e, s, drop, skip, seed)
+    guarded(ctx, run_point, ctx, cd, rng, n, b, e, s, drop, skip, seed)
 
   # long streams: >= 7 complete windows so that "successive windows are re-shuffled" is judged
   for cid, rng in ctx.cases('long', nlong):
@@ -275,7 +300,7 @@ def run(ctx):
     drop = bool(rng.rand() < 0.5)
     skip = bool(rng.rand() < 0.1)
     seed = None if rng.rand() < 0.25 else int(rng.randint(0, 2**32 - 1))
-    run_point(ctx, cd, rng, n, b, e, s, drop, skip, seed, cut=cut)
+    guarded(ctx, run_point, ctx, cd, rng, n, b, e, s, drop, skip, seed, cut=cut)
 
 
 TECHNIQUE = ('runtime monitoring: index-stream checker over a unique idx column (batch size, documented batch count, '
